@@ -64,7 +64,7 @@ def run(ctx):
     from fast_ticc import cluster_maintenance as cm, data_preparation as dp
     from fast_ticc.containers import arguments, model_state
     rng = np.random.default_rng(ctx.seed)
-    ctx.proof_layer(allowed_axioms=core.R_AX, coq_deps=["Corr/RunStats"], gen=["cluster_maintenance"])
+    ctx.proof_layer(allowed_axioms=core.R_AX, coq_deps=["Corr/RunStats"], gen=["cluster_maintenance", "gl_optimize", "gl_setup"])
     core.note_drift(ctx, ANCHORS)
     cov = core.LineCoverage()
     lits, meta = [], []
